@@ -187,6 +187,20 @@ def glyphmap_roundtrip(chk):
                     continue
                 if back != (gm,):
                     chk.violation(f"glyphmap row does not round-trip: {gm} -> {back}", {"row": gm.csv_line()})
+    # a path is not always below a directory (a source in the build directory itself, a custom generator): the hostile
+    # character may be the FIRST of a field, where CSV dialects treat blanks, quotes and comment marks specially
+    for lead in ["#", " ", '"', "'", "-", "@", ";", "%", "!", "~", ".", ",", "\t", "=", "+", "\\", "  ", "# ", "ü"]:
+        for both in (False, True):
+            svg = Path(lead + "name.svg")
+            gm = GlyphMapping(svg, Path(lead + "b.png") if both else None, (0x1F600,) if both else (0x1F468, 0x200D, 0x1F469), "g_1f600")
+            chk.case(key=("gm-lead", lead, both), nontrivial=True)
+            try:
+                back = load_from(io.StringIO("\n".join([gm.csv_line(), gm.csv_line()]) + "\n"))
+            except Exception as e:
+                chk.violation(f"glyphmap row for {str(svg)!r} cannot be parsed back: {type(e).__name__}: {e}", {"row": gm.csv_line()})
+                continue
+            if back != (gm, gm):
+                chk.violation(f"glyphmap rows for the file name {str(svg)!r} do not round-trip: {gm} x2 -> {back}", {"row": gm.csv_line()})
     # rows as the docstring shows them (spaces after commas) must parse too
     back = load_from(io.StringIO("picosvg/clipped/emoji_u270d_1f3fb.svg, bitmap/emoji_u270d_1f3fb.png, g_270d_1f3fb, 270d, 1f3fb\n"))
     if not back or back[0].codepoints != (0x270D, 0x1F3FB) or str(back[0].bitmap_file) != "bitmap/emoji_u270d_1f3fb.png":
